@@ -17,11 +17,13 @@ text = f"""### 10.6 Seeded changes and the checks that catch them
 
 Fresh sub-agents, each given only the text of one property and a scratch worktree of /repo, produced source changes that break
 that property while the code still compiles and the pinned suite still passes (confirmed for every kept change with
-`tools/baseline_off.py`: 59/59). Four rounds: round 1 (`Cxx-n`) asked for realistic slips in the anchored code; round 2
+`tools/baseline_off.py`: 59/59). Five rounds: round 1 (`Cxx-n`) asked for realistic slips in the anchored code; round 2
 (`Cxxr2-n`) for subtler ones in helpers, error paths, caches, concurrency, each needing a specific input or schedule; round 3
 (`Cxxr3-n`) for changes OUTSIDE the functions the property anchors in (actors, shared crate, type definitions, start-up wiring);
 round 4 (`Cxxr4-n`) for faults that depend on HISTORY or ENVIRONMENT (an earlier request on the same connection, an earlier
-failure or retry, a restart, a file left by an earlier run, a configuration other than the default, a sentinel value).
+failure or retry, a restart, a file left by an earlier run, a configuration other than the default, a sentinel value);
+round 5 (`Cxxr5-n`, eight properties) for RARELY EXECUTED PATHS and quantities (I/O and channel failures, shutdown with work in
+flight, clocks, descriptor exhaustion, buffer capacities, Linux socket and file behaviour).
 A last group (`harmless-Hn-m`) are behaviour-preserving refactorings on which every check has to stay quiet. Every change is kept
 under `seeded/<name>/` (`patch.diff`, the agent's `demo.md`, `meta.json`, and `result.json` written by `tools/seed_eval.py`, which
 applies the patch to /repo, runs the named checks and undoes it).
@@ -84,6 +86,19 @@ Changes a check missed when it was first run against them, and what was added so
   installed version, and the property's sentences about `install` and `uninstall` in package mode as oracles of their own.
 * C18r4-1 (file kept after a batch was given up): thorough tier, a two-batch file whose second batch fails all five attempts (75 s).
 * C11r3-2 / C11r4-2 (process details cached per pid): a granted program that `exec`s a program the rules do not grant.
+* Round 5 — 14 of its 16 changes were missed at first; what was added: C04r5-1 (key cleared when shutdown is signalled): the
+  shutdown signal (`cancel` op) while a signed connection is still open; C04r5-2 (attestation moved in front of the store): caught
+  by C08, which gained a scenario in which the store cannot take the key; C08r5-2 (key file dated in the future treated as
+  unreadable): restarts with the wall clock set back; C12r5-1 (vanished key directory re-created without its ACL): polls during which
+  the key directory is gone; C12r5-2 (partial response body put into the error text): a host that sends the whole key document,
+  announces a longer one and drops the connection; C13r5-1 (`/proc/<pid>/cmdline` of zero bytes): zombie / exited / kernel-thread
+  callers; C13r5-2 (accept loop ends on EMFILE): 400 simultaneous connections against a descriptor limit of 128, then a request;
+  C14r5-1 (16 KiB read buffer): request heads of 20–150 KiB; C14r5-2 (`SO_LINGER` 0): a `Connection: close` / HTTP/1.0 client
+  reading a 24 MiB body slowly; C16r5-1 (failed temp-file write still renamed): `status.tag.tmp` leading to `/dev/full`; C16r5-2
+  (no answer from the state actor read as "latched"): the key keeper's state actor is killed through H3 before a `/provision` query;
+  C18r5-1 (extra upload round at shutdown): the shutdown signal while the second batch of a file waits for its answer; C18r5-2
+  (byte slice of the dropped event's JSON): oversize events that are multi-byte throughout; C19r5-1 (archiving made best effort):
+  an append-only live log file (`chattr +a`).
 
 {head}""" + "\n".join(breaking) + "\n\nBehaviour-preserving changes:\n\n" + head.replace("caught by", "checks run") + "\n".join(harmless) + "\n"
 p = os.path.join(VERIF, "DESIGN.md")
